@@ -710,8 +710,24 @@ impl G<'_> {
             if self.r.chance(2, 5) {
                 // named argument
                 self.p.kinds.insert("named-arg");
-                let w = self.ascii_word();
-                self.put(w);
+                if self.r.chance(1, 4) {
+                    // the name itself is (or ends in) a macro expression
+                    self.p.kinds.insert("named-arg-computed-name");
+                    let mn = self.r.pick(MNAMES);
+                    let w = self.ascii_word();
+                    let t = match self.r.below(6) {
+                        0 => "&x".to_string(),
+                        1 => format!("{w}&x"),
+                        2 => format!("%{mn}"),
+                        3 => format!("{w}%{mn}"),
+                        4 => format!("%{mn}()"),
+                        _ => format!("&x.{w}"),
+                    };
+                    self.put(&t);
+                } else {
+                    let w = self.ascii_word();
+                    self.put(w);
+                }
                 self.pad("before-assign", true);
                 let eq = self.pos();
                 self.put("=");
